@@ -1,5 +1,5 @@
 """C04 - certificates are valid witnesses and appear exactly when promised (shape + assembly clauses)"""
-from . import accept, provenance
+from . import accept, provenance, dyn
 
 
 def run(ctx):
@@ -9,6 +9,8 @@ def run(ctx):
     accept.rule_no_shortcut_with_certificate(ctx)
     provenance.rule_argument_provenance(ctx)
     provenance.rule_ownership(ctx)
+    provenance.rule_range_encoding(ctx)
+    dyn.rule_cache_barriers(ctx)
     ctx.assume("rustc's MIR / borrow checker; summaries of sa/shapes.py (bool/Option/tuple shapes, callee summaries, relational restriction by dominating conditions)")
     return (
         "F5 return-shape summaries of all 24 *_with_certificate impls (static and dynamic, through helpers, caches and dyn dispatch) against the "
